@@ -39,6 +39,14 @@ def live(seed, k, tier):
                 src = rnd.choice(CLS)
                 dst = rnd.choice([c for c in CLS if c != src])
                 s.convert(h, u, src, rnd.choice([1000, 10**6, 3 * 10**8]), dst, track=False)
+        if h >= 9:
+            # from 2.0 on a batch that contains a conversion into PEG is refused as a whole, whatever else it contains and in whatever order
+            u = users[4 + h % 3]
+            mixes = [[{"t": "pUSD", "amt": 1000, "to": [(users[0], 1000)]}, {"t": "pUSD", "amt": 2000 + h, "conv": "PEG"}],
+                     [{"t": "pUSD", "amt": 3000 + h, "conv": "PEG"}, {"t": "pUSD", "amt": 1000, "to": [(users[0], 1000)]}],
+                     [{"t": "pUSD", "amt": 1500, "conv": "pXBT"}, {"t": "pUSD", "amt": 2500 + h, "conv": "PEG"}],
+                     [{"t": "pUSD", "amt": 2600 + h, "conv": "PEG"}, {"t": "pUSD", "amt": 1500, "conv": "pXBT"}]]
+            s.entry(h, u, mixes[h % 4])
         if h >= pip + 4:
             # directed probes (own batches, small amounts, funded): into / out of the asset whose average is unavailable, and a control pair
             for (u, src, dst) in ((users[0], "pUSD", "pXBT"), (users[1], "pXBT", "pUSD"), (users[2], "PEG", "pXBT"), (users[3], "pUSD", "pDCR" if h < B else "PEG")):
